@@ -236,6 +236,8 @@ def do_op(ctx, op, entry):
             kw.setdefault(k, v)
         prev = ctx["e"]
         entry["pids_before"] = prev._processes.raw_keys() if prev is not None else []
+        # workers are spawned at the first submit: before that a resize only records the size
+        entry["started_before"] = prev is not None and prev._executor_manager_thread is not None
         del prev
         e = w.re.get_reusable_executor(**kw)
         for h in w.execs:
